@@ -191,9 +191,11 @@ static void operators()
     uint64_t n = 0, nt = 0;
     if (R.shard.idx != 0) { R.part("operators (shard 0 only)", 0, 0); return; }
     typedef a_real (*op2)(a_real, a_real);
-    struct O { const char *name; op2 f; int kind; } ops[7] = {
-        {"cap", a_fuzzy_cap, 0}, {"cap_algebra", a_fuzzy_cap_algebra, 0}, {"cap_bounded", a_fuzzy_cap_bounded, 0},
-        {"cup", a_fuzzy_cup, 1}, {"cup_algebra", a_fuzzy_cup_algebra, 1}, {"cup_bounded", a_fuzzy_cup_bounded, 1}, {"equ", a_fuzzy_equ, 2}};
+    // called by their plain spelling (a function-like macro of the same name in the header would be what runs)
+#define SPO(f) [](a_real a_, a_real b_) -> a_real { return f(a_, b_); }
+    struct O { const char *name; op2 f; int kind; int sel; } ops[7] = {
+        {"cap", SPO(a_fuzzy_cap), 0, A_PID_FUZZY_CAP}, {"cap_algebra", SPO(a_fuzzy_cap_algebra), 0, A_PID_FUZZY_CAP_ALGEBRA}, {"cap_bounded", SPO(a_fuzzy_cap_bounded), 0, A_PID_FUZZY_CAP_BOUNDED},
+        {"cup", SPO(a_fuzzy_cup), 1, A_PID_FUZZY_CUP}, {"cup_algebra", SPO(a_fuzzy_cup_algebra), 1, A_PID_FUZZY_CUP_ALGEBRA}, {"cup_bounded", SPO(a_fuzzy_cup_bounded), 1, A_PID_FUZZY_CUP_BOUNDED}, {"equ", SPO(a_fuzzy_equ), 2, A_PID_FUZZY_EQU}};
     const int G = 16;
     for (auto &o : ops)
     {
@@ -215,7 +217,7 @@ static void operators()
                 (void)mn; (void)mx;
                 if (i < G && (double)o.f((a_real)(i + 1) / G, b) < (double)v - slack) { R.viol(sig + "|monotone", std::string("a_fuzzy_") + o.name + " decreases when its first argument grows", in); continue; }
                 if (j < G && (double)o.f(a, (a_real)(j + 1) / G) < (double)v - slack) { R.viol(sig + "|monotone", std::string("a_fuzzy_") + o.name + " decreases when its second argument grows", in); continue; }
-                L want = fref::opr(o.kind == 2 ? (int)A_PID_FUZZY_EQU : (o.f == a_fuzzy_cap ? (int)A_PID_FUZZY_CAP : o.f == a_fuzzy_cap_algebra ? (int)A_PID_FUZZY_CAP_ALGEBRA : o.f == a_fuzzy_cap_bounded ? (int)A_PID_FUZZY_CAP_BOUNDED : o.f == a_fuzzy_cup ? (int)A_PID_FUZZY_CUP : o.f == a_fuzzy_cup_algebra ? (int)A_PID_FUZZY_CUP_ALGEBRA : (int)A_PID_FUZZY_CUP_BOUNDED), (L)a, (L)b);
+                L want = fref::opr(o.sel, (L)a, (L)b);
                 if (!(std::fabs((double)((L)v - want)) <= 4 * EPS)) { R.viol(sig + "|definition", std::string("a_fuzzy_") + o.name + "(" + num((double)a) + "," + num((double)b) + ") = " + num((double)v) + ", defined as " + num((double)want), in); continue; }
             }
             a_real a = (a_real)i / G;
